@@ -123,6 +123,15 @@ def run(prog, tier, res):
                         pl = wsy.poly(outer_rng[2][0])
                         rec["start"] = fsub(str(ps)) if ps is not None else None
                         rec["len"] = fsub(str(pl)) if pl is not None else None
+                        # `n + n % 2` is the parity case split written as arithmetic: a remainder mod 2 that occurs in the
+                        # formula and that no guard of the path fixes is split into its two values
+                        rems = sorted(set(x for q in (ps, pl) if q is not None for x in q.syms() if re.match(r"^rem\(.*,2\)$", x)))
+                        if len(rems) == 1 and not any(fsub(rems[0]) in a for a in rec["atoms"]):
+                            wsy.set_path(None)
+                            for v_, at_ in ((0, "%s == 0"), (1, "%s - 1 == 0")):
+                                q1, q2 = ps.subs_poly(rems[0], Poly.const(v_)), pl.subs_poly(rems[0], Poly.const(v_))
+                                got.append({"atoms": sorted(rec["atoms"] + [at_ % fsub(rems[0])]), "start": fsub(str(q1)), "len": fsub(str(q2))})
+                            continue
             wsy.set_path(None)
             got.append(rec)
     want = [dict(w, atoms=sorted(w["atoms"])) for w in spec["waveform_at"]]
